@@ -46,7 +46,12 @@ def rand_name(rng):
 def gen_request(rng, for_model_only=True):
     headers = {}
     for _ in range(rng.choice([0, 1, 2, 3, 4])):
-        headers[rand_name(rng)] = rng.choice(["", " ", "v"]) if rng.random() < 0.15 else rand_text(rng, nul=for_model_only)
+        name = rand_name(rng)
+        if name.lower() == "content-type" and rng.random() < 0.6:
+            headers[name] = rng.choice(["application/x-www-form-urlencoded", "application/json", "text/plain", "multipart/form-data; boundary=x",
+                                        "application/x-www-form-urlencoded; charset=utf-8"])
+            continue
+        headers[name] = rng.choice(["", " ", "v"]) if rng.random() < 0.15 else rand_text(rng, nul=for_model_only)
     known = {k: headers[k] for k in headers if rng.random() < 0.3}
     if rng.random() < 0.2:
         known[rand_name(rng)] = "z"
@@ -115,7 +120,7 @@ def dash_words(cmd: str):
     """What a POSIX shell makes of the command line (argv after the command name)."""
     script = 'curl() { printf "%s\\0" "$@"; }; ' + cmd
     try:
-        p = subprocess.run(["dash", "-c", script.encode("utf-8")], capture_output=True, timeout=10)
+        p = subprocess.run(["dash", "-c", script.encode("utf-8")], capture_output=True, stdin=subprocess.DEVNULL, timeout=10)
     except (ValueError, UnicodeEncodeError):
         return None
     if p.returncode != 0:
@@ -279,7 +284,7 @@ def run(chk: core.Check):
             cmd = impl_generate(r)
             msem = canonical_model_sent(sem)
             rec.take()
-            p = subprocess.run(["dash", "-c", cmd + " -s -o /dev/null --max-time 10"], capture_output=True, timeout=30, cwd="/")
+            p = subprocess.run(["dash", "-c", cmd + " -s -o /dev/null --max-time 10"], capture_output=True, stdin=subprocess.DEVNULL, timeout=30, cwd="/")
             got = rec.take()
             canon = {**r, "body": body_text(r["body"])}
             chk.seen({"curl": canon}, True)
@@ -346,7 +351,8 @@ def build_schema(base_url):
                 {"name": "X-A", "in": "header", "schema": {"type": "string"}},
                 {"name": "c", "in": "cookie", "schema": {"type": "string"}},
             ],
-            "requestBody": {"content": {"application/json": {"schema": {}}, "text/plain": {"schema": {"type": "string"}}}},
+            "requestBody": {"content": {"application/json": {"schema": {}}, "text/plain": {"schema": {"type": "string"}},
+                                        "application/x-www-form-urlencoded": {"schema": {"type": "object", "properties": {"a": {"type": "string"}, "b": {"type": "string"}}}}}},
             "responses": {"200": {"description": "ok"}},
         }
     schema = schemathesis.openapi.from_dict(raw)
@@ -378,7 +384,7 @@ def e2e_once(rec, schema, parts):
     response = case.call()
     first = rec.take()
     cmd = case.as_curl_command(headers=dict(response.request.headers), verify=True)
-    p = subprocess.run(["dash", "-c", cmd + " -s -o /dev/null --max-time 10"], capture_output=True, timeout=30, cwd="/")
+    p = subprocess.run(["dash", "-c", cmd + " -s -o /dev/null --max-time 10"], capture_output=True, stdin=subprocess.DEVNULL, timeout=30, cwd="/")
     second = rec.take()
     return first, second, cmd, p.returncode
 
@@ -437,7 +443,11 @@ def end_to_end(chk, rec, n):
             "method": E2E_METHODS[i % len(E2E_METHODS)] if i < 2 * len(E2E_METHODS) else rng.choice(E2E_METHODS),
         }
         kind = rng.random()
-        if kind < 0.3:
+        if i % 7 == 3 or kind < 0.1:
+            # form payloads, the empty one included (it serializes to nothing: no -d in the command)
+            parts["body"] = [{}, {"a": t()}, {"a": t(), "b": t()}][(i // 7) % 3] if i % 7 == 3 else rng.choice([{}, {"a": t()}])
+            parts["media_type"] = "application/x-www-form-urlencoded"
+        elif kind < 0.3:
             parts["body"] = None
         elif kind < 0.65:
             parts["body"] = rng.choice([{"a": t()}, [t(), 1, None], t(), 0, True])
@@ -505,7 +515,7 @@ def printed_report(chk, rec, n):
         block = block.lstrip("\n ")
         # the block ends at the end of the message; the command's first line carries the report's indentation only
         cmd = block.rstrip("\n")
-        p = subprocess.run(["dash", "-c", cmd + " -s -o /dev/null --max-time 10"], capture_output=True, timeout=30, cwd="/")
+        p = subprocess.run(["dash", "-c", cmd + " -s -o /dev/null --max-time 10"], capture_output=True, stdin=subprocess.DEVNULL, timeout=30, cwd="/")
         second = rec.take()
         done += 1
         chk.seen({"printed": {"body": body}}, "\n" in body)
@@ -580,7 +590,7 @@ def engine_reports(chk, n):
                 seen_cmd.add((case_id, cmd))
                 first = by_id.get(case_id, [])
                 rec.take()
-                subprocess.run(["dash", "-c", cmd + " -s -o /dev/null --max-time 10"], capture_output=True, timeout=30, cwd="/")
+                subprocess.run(["dash", "-c", cmd + " -s -o /dev/null --max-time 10"], capture_output=True, stdin=subprocess.DEVNULL, timeout=30, cwd="/")
                 second = rec.take()
                 done += 1
                 derived += bool(is_derived)
